@@ -276,6 +276,10 @@ fn after_hook(e: &Event, val: usize, ok: bool) {
             AOp::Store => RK::Store,
             AOp::Swap | AOp::FetchAdd | AOp::FetchSub => RK::Rmw,
             AOp::CompareExchange | AOp::CompareExchangeWeak => if ok { RK::Rmw } else { RK::FailedCas },
+            // the lock of the lock-based strategy: taking it acquires, releasing it releases (and
+            // continues the release sequence, so that a writer learns of every reader before it)
+            AOp::LockRead | AOp::LockWrite => if ok { RK::Rmw } else { RK::FailedCas },
+            AOp::Unlock => RK::Rmw,
         };
         crate::race::atomic(e.addr, kind, e.ord, e.ord_fail);
     }
@@ -425,6 +429,9 @@ fn after_hook(e: &Event, val: usize, ok: bool) {
             ),
             AOp::FetchAdd => format!("{} fadd {} -> {}", site, loc, val),
             AOp::FetchSub => format!("{} fsub {} -> {}", site, loc, val),
+            AOp::LockRead => format!("{} lock-read {}", site, if ok { "taken" } else { "busy" }),
+            AOp::LockWrite => format!("{} lock-write {}", site, if ok { "taken" } else { "busy" }),
+            AOp::Unlock => format!("{} unlock", site),
         }
     });
     emit(line);
@@ -721,6 +728,7 @@ impl ByValue for arc_swap::strategy::DefaultStrategy {
 }
 #[allow(deprecated)]
 impl ByValue for arc_swap::strategy::test_strategies::FillFastSlots {}
+impl ByValue for std::sync::RwLock<()> {}
 
 fn exec_op<S>(sh: &Shared<S>, w: usize, op: &Op) -> String
 where
